@@ -510,6 +510,8 @@ def c19_part(ctx, vh, model, report, extra):
             muts.append(("volume.count=%d+filelistbytes=%d" % (cnt, flb_), arch(vols={1: P1.volume_bytes(E, H, 1, par[0], count=cnt, flb=flb_)})))
     for db in (0, 1, 1 << 63, (1 << 64) - 1):
         muts.append(("volume.databytes-field=%d" % db, arch(vols={1: P1.volume_bytes(E, H, 1, par[0], databytes=db)})))
+    for v in (0, 1, 0x5F, (1 << 63), (1 << 64) - 1, (1 << 64) - 2, (1 << 64) - len(par[0]), (1 << 64) - len(par[0]) + 1):
+        muts.append(("volume.dataoffset-field=%d" % v, arch(vols={1: P1.volume_bytes(E, H, 1, par[0], dataoff=v)})))
     for v in (0, 0x5F, 0x61, 1 << 63):
         muts.append(("index.filelistoffset=%d" % v, arch(index=P1.volume_bytes(E, H, 0, b"", flo=v))))
     for v in (0, 0x00010001, 0x00020000, (7 << 32) | 0x00010000):
